@@ -144,7 +144,7 @@ func contains(s, sub string) bool {
 func init() {
 	Register(&Prop{
 		ID:    "C01",
-		Rule:  "same enumeration as C02 (skeleton, mode, ≤k focus units over full alphabets, all field visit orders); non-trivial = a deviating case on which the call returned no issues (the oracle walks the destination); distinct = distinct (skeleton, mode, schema configuration) among those. plus " + callsRule + " (C01 reports the sequences in which a call came back without issues although the same call made alone reports a violation)",
+		Rule:  "same enumeration as C02 (skeleton, mode, ≤k focus units over full alphabets, all field visit orders); non-trivial = a deviating case on which the call returned no issues (the oracle walks the destination); distinct = distinct (skeleton, mode, schema configuration) among those. plus " + callsRule + " (C01 reports the sequences in which a call came back without issues although the same call made alone reports a violation). plus " + layoutRule + " (C01 reports runs with fewer issues than the fresh schema)",
 		Floor: 50,
 		Bound: func(tier string) string {
 			k, e := coreK(tier)
@@ -157,7 +157,9 @@ func init() {
 		Items: func(tier string) []Item {
 			items := coreItems(tier, c01Scenario, nil, []int{0, 1}, 0)
 			// "...or an earlier call": call sequences and overlapping (re-entrant) executions
-			return append(items, callsItems(tier, "C01", "clean-despite-violation", "panic")...)
+			items = append(items, callsItems(tier, "C01", "clean-despite-violation", "panic")...)
+			// "...or an earlier call" on the same schema object with another destination type
+			return append(items, layoutItems(tier, "C01", "issues-missing", "panic")...)
 		},
 	})
 }
